@@ -58,7 +58,7 @@ def _misc(name, fn, defs, src, extra=None, functions=None):
          "verif_src": ["models/strings.c"],
          "late_src": ["models/snprintf.c"],
          "allow_no_body": [],
-         "unwind": 21, "mem_gb": 2, "timeout": 300}
+         "unwind": 21, "mem_gb": 2, "timeout": 300, "bounds": {"STR": 32, "STRCPY": 384, "SPAN": 512}}
     j.update(extra or {})
     return j
 
@@ -83,15 +83,15 @@ JOBS += [
           functions=["gensalt_sha1crypt_rn", "to64"], extra={"unwind": 18}),
     _misc("scrypt", "gensalt_scrypt_rn", ["M_scrypt=1", "OSZ_MAX=256", "XV_STRCPY_MAX=256", "STUB_STRCPY_OR_ABORT=1", "XV_STR_SCAN=193"], ["lib/crypt-scrypt.c", ],
           functions=["gensalt_scrypt_rn", "encode64", "encode64_uint32", "N2log2", "strcpy_or_abort"],
-          extra={"unwind": 24, "unwind_by_func": {"^strlen$": 194, "^_crypt_strcpy_or_abort$": 258}, "cases": NRB_CASES, "timeout": 500, "mem_gb": 2, "bound": "output_size <= 256 (larger sizes differ only in strcpy_or_abort's zero fill, which has its own contract)"}),
+          extra={"unwind": 24, "bounds": {"STR": 193, "STRCPY": 256, "SPAN": 512}, "cases": NRB_CASES, "timeout": 500, "mem_gb": 2, "bound": "output_size <= 256 (larger sizes differ only in strcpy_or_abort's zero fill, which has its own contract)"}),
     _misc("yescrypt", "gensalt_yescrypt_rn", ["M_yescrypt=1", "OSZ_MAX=256", "XV_STRCPY_MAX=256", "STUB_STRCPY_OR_ABORT=1", "XV_STR_SCAN=193"],
           ["lib/crypt-yescrypt.c", "lib/alg-yescrypt-common.c"],
           functions=["gensalt_yescrypt_rn", "yescrypt_encode_params_r", "encode64", "encode64_uint32",
                      "encode64_uint32_fixed", "N2log2", "strcpy_or_abort"],
-          extra={"unwind": 24, "unwind_by_func": {"^strlen$": 194, "^_crypt_strcpy_or_abort$": 258}, "cases": NRB_CASES, "timeout": 500, "mem_gb": 2, "bound": "output_size <= 256 (larger sizes differ only in strcpy_or_abort's zero fill, which has its own contract)"}),
+          extra={"unwind": 24, "bounds": {"STR": 193, "STRCPY": 256, "SPAN": 512}, "cases": NRB_CASES, "timeout": 500, "mem_gb": 2, "bound": "output_size <= 256 (larger sizes differ only in strcpy_or_abort's zero fill, which has its own contract)"}),
     _misc("gost_yescrypt", "gensalt_gost_yescrypt_rn", ["M_gost_yescrypt=1", "OSZ_MAX=256", "XV_STRCPY_MAX=256", "STUB_STRCPY_OR_ABORT=1", "XV_STR_SCAN=193"],
           ["lib/crypt-gost-yescrypt.c", "lib/crypt-yescrypt.c", "lib/alg-yescrypt-common.c"],
           functions=["gensalt_gost_yescrypt_rn", "gensalt_yescrypt_rn", "yescrypt_encode_params_r", "encode64",
                      "encode64_uint32", "encode64_uint32_fixed", "N2log2", "strcpy_or_abort"],
-          extra={"unwind": 24, "unwind_by_func": {"^strlen$": 194, "^_crypt_strcpy_or_abort$": 258}, "cases": NRB_CASES, "timeout": 500, "mem_gb": 2, "bound": "output_size <= 256 (larger sizes differ only in strcpy_or_abort's zero fill, which has its own contract)"}),
+          extra={"unwind": 24, "bounds": {"STR": 193, "STRCPY": 256, "SPAN": 512}, "cases": NRB_CASES, "timeout": 500, "mem_gb": 2, "bound": "output_size <= 256 (larger sizes differ only in strcpy_or_abort's zero fill, which has its own contract)"}),
 ]
